@@ -40,15 +40,16 @@ def _checked_profile(ctx):
 
 
 def _post(ctx):
-    """(1) the second build profile of the crash search; (2) the parser engine's panic-freedom theorem instantiated on every
-    dialect's freshly dumped grammar graph (Pem stage: coq/gen/PemGrammar_<d>.v + coq/gen/PemNoPanic_<d>.v)."""
+    """(1) the second build profile of the crash search; (2) the parser engine's panic-freedom and termination theorems
+    instantiated on every dialect's freshly dumped grammar graph (Pem stage: coq/gen/PemGrammar_<d>.v + coq/gen/PemNoPanic_<d>.v
+    + coq/gen/PemTerm_<d>.v)."""
     _checked_profile(ctx)
     if ctx.get("replay"):
         return
     import cpem
     # all 13 graphs on every run: the obligation is one vm_compute per dialect (5-35 s each, run in parallel); the
     # interpreter-vs-parser replay (with_cases) stays with C02 / bin/check PEM
-    cpem.pem_stage(ctx, dialects=cpem.ALL, with_cases=False, no_panic=True)
+    cpem.pem_stage(ctx, dialects=cpem.ALL, with_cases=False, no_panic=True, terminates=True)
 
 
 CFG = dict(
